@@ -2,6 +2,7 @@
 import os
 import struct
 import subprocess
+import time
 
 import core
 
@@ -72,6 +73,7 @@ def nt_sem(tags, ops, impl):
 # ---------------------------------------------------------------------------------------------
 
 AS_CAP = 1 << 30          # RLIMIT_AS of the child
+CHILD_START_FAILURES = ("pthread_create failed", "failed to create new OS thread", "newosproc", "fork/exec")
 RSS_SLACK_KB = 64 << 10   # 64 MiB
 RSS_FACTOR = 64           # + 64 x file size
 
@@ -126,11 +128,20 @@ def stage_memory(ctx, only=None):
         cmd = ["prlimit", "--as=%d" % AS_CAP, core.HARNESS_BIN, "tool", "c19-load", "-as", "0", kind] + ([str(dim)] if kind == "ce" else []) + [path]
         env = core.go_env()
         env["GOMEMLIMIT"] = "512MiB"
-        try:
-            p = subprocess.run(cmd, stdout=subprocess.PIPE, stderr=subprocess.PIPE, env=env, timeout=300)
-            rc, out, err = p.returncode, p.stdout.decode(errors="replace"), p.stderr.decode(errors="replace")
-        except subprocess.TimeoutExpired:
-            rc, out, err = -999, "", "timeout after 300 s"
+        env["GOMAXPROCS"] = "2"   # few threads under the address-space cap
+        for attempt in range(5):
+            try:
+                p = subprocess.run(cmd, stdout=subprocess.PIPE, stderr=subprocess.PIPE, env=env, timeout=300)
+                rc, out, err = p.returncode, p.stdout.decode(errors="replace"), p.stderr.decode(errors="replace")
+            except subprocess.TimeoutExpired:
+                rc, out, err = -999, "", "timeout after 300 s"
+            # a child that could not even start a thread (EAGAIN from clone: the machine's process / thread budget was exhausted
+            # by whatever else runs on it) says nothing about the loader: run it again.  Running out of MEMORY is not excused.
+            if rc != 0 and any(x in err for x in CHILD_START_FAILURES) and not any(l.startswith("R ") for l in out.split("\n")):
+                ctx.add_distribution({"memory.child-could-not-start-a-thread(retried)": 1})
+                time.sleep(0.5 + attempt)
+                continue
+            break
         line, hwm = "", -1
         for l in out.split("\n"):
             if l.startswith("R "):
